@@ -50,49 +50,83 @@ def _run(cmd, timeout):
         return "timeout", time.time() - t0, ""
 
 
+def _popen(cmd):
+    return subprocess.Popen(cmd, stdout=subprocess.PIPE, stderr=subprocess.PIPE, text=True)
+
+
+def _race(plan, timeout):
+    """Run several solver commands concurrently; -> list of (name, status, time).  Stops the others as soon as
+    one answers unsat (first unsat wins) - a sat answer is recorded but the others keep running."""
+    t0 = time.time()
+    procs = [(name, _popen(cmd)) for name, cmd in plan]
+    done = {}
+    while len(done) < len(procs) and time.time() - t0 < timeout:
+        for name, p in procs:
+            if name in done:
+                continue
+            if p.poll() is not None:
+                out, err = p.communicate()
+                first = out.strip().split("\n")[0].strip() if out.strip() else ""
+                if first in ("unsat", "sat", "unknown"):
+                    st = first
+                elif "timeout" in out or "timeout" in err or "interrupted" in err:
+                    st = "timeout"
+                else:
+                    st = "error"
+                done[name] = (st, time.time() - t0)
+        if any(v[0] == "unsat" for v in done.values()):
+            break
+        time.sleep(0.01)
+    for name, p in procs:
+        if name not in done:
+            try:
+                p.kill()
+                p.communicate(timeout=5)
+            except Exception:
+                pass
+            done[name] = ("timeout", time.time() - t0)
+    return [(name, done[name][0], done[name][1]) for name, _ in plan]
+
+
 def solve_text(text, budget, workdir, tag, both=False):
-    """Portfolio on one VC.  -> dict(status, solver, time, attempts)"""
+    """Portfolio on one VC.  Stage 1: z3 with e-matching only, short budget.  Stage 2 (only if needed): cvc5,
+    z3 with MBQI and cvc5 with enumerative instantiation race each other under the full budget.
+    -> dict(status, solver, time, attempts)"""
     path = os.path.join(workdir, tag + ".smt2")
     with open(path, "w") as f:
         f.write(text)
     attempts = []
     b = max(1, int(budget))
+    b1 = min(b, 3)
+    z3e = ("z3-ematch", [Z3, "-smt2", "smt.auto_config=false", "smt.mbqi=false", "-T:%d" % b1, path])
+    st, tm, raw = _run(z3e[1], b1 + 5)
+    attempts.append({"solver": "z3-ematch", "status": st, "time": round(tm, 3)})
+    if st == "unsat" and not both:
+        return {"status": "unsat", "solver": "z3-ematch", "time": tm, "attempts": attempts}
     plan = [
-        ("z3-ematch", [Z3, "-smt2", "smt.auto_config=false", "smt.mbqi=false", "-T:%d" % b, path]),
         ("cvc5", [CVC5, "--tlimit=%d" % (b * 1000), "--strings-exp", path]),
         ("z3-mbqi", [Z3, "-smt2", "-T:%d" % b, path]),
         ("cvc5-enum", [CVC5, "--tlimit=%d" % (b * 1000), "--strings-exp", "--enum-inst", path]),
+        ("z3-ematch-long", [Z3, "-smt2", "smt.auto_config=false", "smt.mbqi=false", "-T:%d" % b, path]),
     ]
-    verdict = None
-    sat_seen = None
-    for name, cmd in plan:
-        st, tm, raw = _run(cmd, b + 5)
-        attempts.append({"solver": name, "status": st, "time": round(tm, 3)})
-        if st == "unsat":
-            if verdict is None:
-                verdict = {"status": "unsat", "solver": name, "time": tm}
-            if not both:
-                break
-            if both and len([a for a in attempts if a["status"] == "unsat"]) >= 2:
-                break
-        elif st == "sat":
-            sat_seen = name
-            if not both:
-                # a `sat` under quantifiers is a candidate counter-model, keep looking for unsat elsewhere? no:
-                # both solvers are sound for sat on the fragments they accept.
-                break
-    if verdict is not None:
-        if sat_seen is not None:
-            verdict = {"status": "disagree", "solver": sat_seen + " vs " + verdict["solver"], "time": 0}
-        verdict["attempts"] = attempts
-        return verdict
-    stt = "sat" if sat_seen else ("timeout" if all(a["status"] in ("timeout", "error") for a in attempts)
-                                  else "unknown")
-    return {"status": stt, "solver": sat_seen or "-", "time": sum(a["time"] for a in attempts),
-            "attempts": attempts}
+    t1 = time.time()
+    for name, stt, tmm in _race(plan, b + 5):
+        attempts.append({"solver": name, "status": stt, "time": round(tmm, 3)})
+    wall = tm + (time.time() - t1)
+    unsat = [a for a in attempts if a["status"] == "unsat"]
+    sat = [a for a in attempts if a["status"] == "sat"]
+    if unsat and sat:
+        return {"status": "disagree", "solver": sat[0]["solver"] + " vs " + unsat[0]["solver"], "time": wall,
+                "attempts": attempts}
+    if unsat:
+        best = min(unsat, key=lambda a: a["time"])
+        return {"status": "unsat", "solver": best["solver"], "time": wall if best["solver"] != "z3-ematch" else tm,
+                "attempts": attempts, "confirmed_by": [a["solver"] for a in unsat]}
+    stt = "sat" if sat else ("timeout" if all(a["status"] in ("timeout", "error") for a in attempts) else "unknown")
+    return {"status": stt, "solver": sat[0]["solver"] if sat else "-", "time": wall, "attempts": attempts}
 
 
-def solve_all(items, budget, workdir, jobs=16, both=False):
+def solve_all(items, budget, workdir, jobs=8, both=False):
     """items: list of (tag, smt2 text) -> dict tag -> result"""
     res = {}
     with ThreadPoolExecutor(max_workers=jobs) as ex:
